@@ -431,14 +431,16 @@ def configs_for(ctx, k, kind='affine'):
 
 
 # ----------------------------------------------------------------------------------------------
-def make_problem(rng, family, idx):
+def make_problem(rng, family, idx, small=False):
     import pyhf
     pyhf.set_backend('numpy')
-    for _ in range(50):
+    for _ in range(200):
         spec = gen_spec(rng, family)
         pdf = pyhf.Model(copy.deepcopy(spec), poi_name='mu')
         cm = compile_model(spec, pdf)
         n = cm['npars']
+        if small and (n > 12 or cm['nmain'] > 8):      # exact rational certificates grow cubically with the model
+            continue
         sb = pdf.config.suggested_bounds()
         bounds = []
         for lo, hi in sb:
@@ -577,12 +579,12 @@ def run(ctx):
         p['_corpus_cfg'] = [tuple(body['config'])]
         problems.append(p)
     na, npr, nc = ctx.n(36, 400), ctx.n(8, 80), ctx.n(8, 60)
-    problems += [make_problem(rng, 'affine', i) for i in range(na)]
-    problems += [make_problem(rng, 'product', i) for i in range(npr)]
+    problems += [make_problem(rng, 'affine', i, small=ctx.quick or i % 4 != 0) for i in range(na)]
+    problems += [make_problem(rng, 'product', i, small=True) for i in range(npr)]
     problems += [counting_problem(rng, i) for i in range(nc)]
     # the float32 sweep: a fixed-POI fit at values that are not float32 numbers on every backend
     for i, be in enumerate(BACKENDS):
-        p = make_problem(rng, 'affine', 1000 + i)
+        p = make_problem(rng, 'affine', 1000 + i, small=True)
         p['kind'], p['poi_val'] = 'fixed_poi', 0.1
         p['bounds'][p['poi_index']] = [0.0, 10.0]
         j = next((k for k in range(p['npars']) if k != p['poi_index']), None)
@@ -629,9 +631,15 @@ def run(ctx):
             exprs.append(expr_validate(prob)); owner.append((ri, 'val'))
     results = {}
     try:
-        res = core.coq_eval(ctx, 'fits', HEADER, exprs, shard=max(8, (len(exprs) + core.NCPU - 1) // core.NCPU), timeout=1500)
-        for (ri, what), r in zip(owner, res):
-            results[(ri, what)] = parse(r)
+        nsh = core.NCPU
+        order = sorted(range(len(exprs)), key=lambda i: -len(exprs[i]))
+        per = (len(exprs) + nsh - 1) // nsh
+        buckets = [order[j::nsh] for j in range(nsh)]          # deal by decreasing size: balanced shards
+        flat = [i for b in buckets for i in (b + [None] * (per - len(b)))]
+        res = core.coq_eval(ctx, 'fits', HEADER, [exprs[i] if i is not None else 'tt' for i in flat], shard=per, timeout=1500)
+        for i, r in zip(flat, res):
+            if i is not None:
+                results[owner[i]] = parse(r)
     except core.CoqEvalError as e:
         tie = tie or ('model evaluation failed: %s' % str(e)[-800:])
     ctx.log('evaluated %d Coq expressions' % len(exprs))
@@ -684,7 +692,8 @@ def run(ctx):
         # (2) wrapper model (Coq) vs implementation: the returned vector, the arguments handed to the optimiser
         mo = results.get((ri, 'fit'))
         if mo is not None:
-            (code, _, mx, _munc), (kx0, kb, kf) = mo
+            code, _, mx, _munc, (kx0, klo, khi, kf) = mo
+            kb = list(zip(klo, khi))
             if code != 0 or mx != [core.frac(v) for v in x]:
                 if not badfix:
                     is32 = be == 'tensorflow' and code == 0 and len(mx) == len(x) and all(xi == f32(float(m)) or core.frac(xi) == m for m, xi in zip(mx, x))
@@ -720,9 +729,9 @@ def run(ctx):
             elif not pos:
                 stats['not_wellposed'] += 1
             else:
-                cert2 = 2 * (min(e0, ew) if wok else e0)
+                cert2 = 2 * (ew if wok else e0)
                 rec['cert2'] = float(cert2)
-                rec['witness_used'] = bool(wok and ew <= e0)
+                rec['witness_used'] = bool(wok)
                 stats['certified'] += 1
                 stats['eligible'][optn] += 1
                 if cert2 <= Fraction(BUDGET[optn]):
